@@ -241,7 +241,7 @@ register(Prop("C16", c16_streams, compare=obs_filter(C16_OBS), oracle=c16_oracle
 
 
 # ------------------------------------------------------------------ C17
-C17_OBS = ["port", "explicit_port", "is_default_port", "host_port_subcomponent", "str", "raw_host"]
+C17_OBS = ["scheme", "port", "explicit_port", "is_default_port", "host_port_subcomponent", "str", "raw_host"]
 DEFAULTS = {"http": 80, "https": 443, "ws": 80, "wss": 443, "ftp": 21}
 
 
@@ -335,6 +335,39 @@ def c17_oracle(full, io, b):
             shown_s = int(rest[1:]) if rest.startswith(":") and rest[1:].isdigit() else (None if rest == "" else "?")
         if m and shown_s != "?" and shown_s != exp_shown:
             out.append(fail(v, h, "str", f"str(url) = {dec(s)!r}, expected port shown = {exp_shown}", "port-shown"))
+    # internal consistency of EVERY live URL, however it was produced (with_scheme, with_host, /, join, pickle …): the port
+    # observables are functions of (scheme, explicit_port, has-authority) alone
+    flagged = {f_.get("n") for f_ in out}
+    for h in range(len(v.cr)):
+        if not v.alive(h):
+            continue
+        sc, ep, pt, idp, hps, rh = (v.get(h, x) for x in ("scheme", "explicit_port", "port", "is_default_port", "host_port_subcomponent", "raw_host"))
+        if None in (sc, ep, pt) or any(x.startswith("!") for x in (sc, ep, pt)):
+            continue
+        scheme = dec(sc)
+        e_ = None if ep == "~" else int(ep[1:])
+        p_ = None if pt == "~" else int(pt[1:])
+        dflt = DEFAULTS.get(scheme)
+        if e_ is not None and not (0 <= e_ <= 65535):
+            out.append(fail(v, h, "explicit_port", f"explicit_port = {e_} is outside 0-65535", "explicit-port"))
+            continue
+        want = e_ if e_ is not None else dflt
+        if p_ != want and v.n_of(h, "port") not in flagged:
+            out.append(fail(v, h, "port", f"port = {p_} but explicit_port = {e_} and the default of scheme {scheme!r} is {dflt}: expected {want}", "port-fallback",
+                            also=[v.n_of(h, "explicit_port"), v.n_of(h, "scheme")]))
+            continue
+        has_auth = rh is not None and rh != "~" and not rh.startswith("!")
+        if idp in ("T", "F") and has_auth:
+            exp_default = True if e_ is None else (e_ == dflt)
+            if (idp == "T") != exp_default and v.n_of(h, "is_default_port") not in flagged:
+                out.append(fail(v, h, "is_default_port", f"is_default_port() = {idp} but explicit_port = {e_}, scheme default {dflt}", "is-default-port"))
+                continue
+        if hps is not None and hps != "~" and not hps.startswith("!") and has_auth and dec(rh):
+            shown = re.search(r":(\d+)\Z", dec(hps).rpartition("]")[2] if "]" in dec(hps) else (dec(hps) if ":" in dec(hps) else ""))
+            exp_shown = None if (e_ is None or e_ == dflt) else e_
+            if (int(shown.group(1)) if shown else None) != exp_shown and v.n_of(h, "host_port_subcomponent") not in flagged:
+                out.append(fail(v, h, "host_port_subcomponent", f"host_port_subcomponent = {dec(hps)!r} but explicit_port = {e_}, scheme default {dflt}: expected port shown = {exp_shown}",
+                                "port-shown", also=[v.n_of(h, "explicit_port"), v.n_of(h, "scheme")]))
     return out
 
 
@@ -381,7 +414,20 @@ C18_TEXTS = ["", "a", "a b", "é", "日本", "\U0001f600", "a/b", "a?b", "a#b", 
 
 def c18_streams(rng, tier, budget):
     st = Stream()
-    hosts = ["example.com", "bücher.example", "127.0.0.1", "::1", "fe80::1", "日本.jp", "xn--tda.com", "h"]
+    hosts = ["example.com", "bücher.example", "127.0.0.1", "::1", "fe80::1", "日本.jp", "xn--tda.com", "h",
+             # every host kind the property names, in its awkward spellings: zone ids (the only place a '%' can occur in a host),
+             # IPv4-mapped and upper-case IPv6, IDN with a digit-ending label, look-alikes of IP syntaxes, trailing dots
+             "fe80::1%eth0", "fe80::1%25eth0", "::ffff:1.2.3.4", "2001:DB8::1", "bücher.h1", "v1.example.com", "EXAMPLE.com", "h.", "1.2.3.example"]
+    # deterministic matrix first: every host kind × userinfo × port, so that no kind depends on the random draw
+    for hst in hosts:
+        for kw0 in ({}, {"user": "ü s"}, {"user": "u", "password": "p:w"}, {"port": 8080}, {"user": "a@b", "port": 80}):
+            kw = dict(scheme="http", host=hst, path="/p q", fragment="é")
+            kw.update(kw0)
+            u = st.build(**kw)
+            st.obs_all(u, ["human_repr", "str", "val", "host", "raw_host"])
+            r = st.hr(u)
+            st.obs_all(r, ["str", "val", "host", "raw_host"])
+            st.cmp(r, u)
     n = int((500 if tier == "quick" else 8000) * budget)
     for _ in range(n):
         kw = {"scheme": pick(rng, ["http", "https", "ftp", "x"]), "host": pick(rng, hosts)}
